@@ -296,8 +296,10 @@ func (c *connection) onActiveRespondEvent(record map[uint16]*ActiveMessage, msg 
 	case consts.T1003UploadAudioVideoAttr:
 		t0x1003 := &model.T0x1003{}
 		tmp.JT808Handler = t0x1003
-		tmp.HasRespondFunc = func(_ uint16) bool {
-			return true
+		tmp.HasRespondFunc = func(seq uint16) bool {
+			// 0x1003没有应答流水号 只能对应等待中的0x9003查询
+			v, ok := record[seq]
+			return ok && v.Command == consts.P9003QueryTerminalAudioVideoProperties
 		}
 	case consts.T1205UploadAudioVideoResourceList:
 		t0x1205 := &model.T0x1205{}
